@@ -12,6 +12,8 @@ CONSTANTS
   Coarse = TRUE
   RealNodes = {"a", "b"}
   CancelOnReturn = TRUE
+  SkipOnBackendCancel = FALSE
+  EdgeGuard = TRUE
   BSilence = 0
   BCut = 1
   ShutNodes = {"a", "b"}
@@ -26,6 +28,7 @@ INVARIANTS
   OnePerPeer
   ListedIffOpen
   EdgeOnlyWhileHeld
+  EstHasEdge
   RebuildComing
   NoOrphan
   NoInitAfterDone
